@@ -504,7 +504,10 @@ func (s *Sim) blockFor(t *Task, point, key string) (func() bool, func()) {
 	switch point {
 	case "writeMu.lock":
 		m := s.walFor(t, key)
-		return func() bool { return m.holder == nil }, func() { m.holder = t; t.inUnlocked = false }
+		// a task recorded as holder that asks for the lock again has necessarily
+		// released it (its previous API call returned without the harness
+		// noticing, e.g. when the code under test is driven by other library code)
+		return func() bool { return m.holder == nil || m.holder == t }, func() { m.holder = t; t.inUnlocked = false }
 	case "awaitRotate.wait":
 		m := s.walFor(t, key)
 		want := m.trigGen
